@@ -459,6 +459,7 @@ class RankedPairs:
             to produce them from ranked votes.
         :param n_seats: Number of candidates to select.
         """
+        votes = _complete_pairs(votes)
         scored = self.pairwin_scoring(votes)
         pairwise_winners = list(votes.keys())
         pairwise_winners.sort(key=votes.get, reverse=True)
